@@ -51,7 +51,7 @@ pub fn replay(bins: &Bins, file: &str, _verif: &str) -> i32 {
     }
     let scen: Scenario = serde_json::from_value(v["scenario"].clone()).expect("scenario");
     let spec: RunSpec = serde_json::from_value(v["spec"].clone()).expect("spec");
-    let w = Worker::new(63, bins);
+    let w = Worker::new(163, bins);
     let mut runs = vec![];
     for _ in 0..2 {
         let r = w.prepare(&scen).and_then(|_| {
